@@ -74,6 +74,8 @@ POLICIES = ['P', 'O', 'A']     # empty catalogs: all placeholder rows | all omit
 def event_values(k, fraction):
     """The k-th event of a file: (id, ms, lat, lon, depth, mag); every field differs between events of one file."""
     ms = T0_MS + STEP_MS * k + (FRACS_MS[k % 8] if fraction else 0)
+    if k % 5 == 3:
+        ms = -ms            # every fifth event lies before 1970 (mirrored instant, with its fraction)
     lat = (3000 + 13 * (k % 4000)) / 100
     lon = (-12000 + 37 * (k % 4000)) / 1000
     depth = (10 + 55 * (k % 4000)) / 10
